@@ -377,6 +377,10 @@ def r8(ctx):
                 ctx.violate(b.key, p, 'Timeout returned without a successful cancel_recv_signal (a later sender could write into the dead frame)')
             else:
                 c = canc_t[-1][2]
+                # the section is that of the cancel CALL (the guard may be a temporary released before the branch)
+                calls_ = [e for e in evs if e.name == 'CANCEL_RECV' and e.idx < c.idx]
+                if calls_:
+                    c = calls_[-1]
                 if c.sec is None or c.sec == regs[-1].sec:
                     ctx.violate(b.key, p, 'cancel_recv_signal not evaluated in its own later critical section', at=c.at)
 
